@@ -340,3 +340,19 @@ def corridor_states(env: Any, state0: Any) -> Tuple[Any, List[Dict[str, int]]]:
     new_pos = pos_t(x=np.array([r for r, _ in cells], dt_x), y=np.array([c for _, c in cells], dt_y))
     batched = batched.replace(player_locations=new_pos)
     return batched, [{"row": r, "col": c} for r, c in cells]
+
+
+def corridor_timesteps(env: Any, states: Any) -> Any:
+    """FRESH FIRST-type timesteps for the batched `states` of corridor_states: the environment's own
+    observation function (`env._observation_from_state`, the one reset() and step() use - a private
+    method, hence optional) applied to every injected state.  With these as root timesteps the
+    explorer may keep `injected_roots = False`, so that root masks/observations/invariants are
+    checked too and the C04 reaction test already applies to the first step out of every cell
+    (otherwise explore the injected roots to depth >= 2: reactions are skipped on stale roots)."""
+    import jax
+    import jax.numpy as jnp
+    from jumanji.types import restart
+
+    fn = jax.jit(jax.vmap(lambda st: restart(observation=env._observation_from_state(st))))
+    ts = fn(jax.tree_util.tree_map(jnp.asarray, states))
+    return jax.tree_util.tree_map(lambda x: np.asarray(x), jax.device_get(ts))
